@@ -85,7 +85,7 @@ PROPS: dict[str, dict[str, Any]] = {
     },
     "C14": {
         "level": "exploration",
-        "sidecars": [],
+        "sidecars": ["contracts/c14.py"],
         "bounded": [{"script": "bounded/roundtrip_harness.py", "args": []}],
         "rule": "bounded stand-in: 24 (thorough 200) seeded multi-workflow trace sets (2-4 traces of 1-4 spans, chain / bushy, span names with inner and "
                 "surrounding white space, unicode, punctuation; workflow names with spaces) x mapping config {default, all seven keys renamed} x {sync, "
